@@ -152,6 +152,7 @@ func linearAttempt(c *Ctx) {
 	var cnt *ssa.Phi
 	step := int64(1)
 	// limitOK: the value is count - 1 as fixed by LinearAttempt before the goroutine starts
+	gos0 := an.AllInstrs(fn, func(in ssa.Instruction) bool { _, ok := in.(*ssa.Go); return ok })
 	limitOK := func(v ssa.Value) bool {
 		srcs := P.Sources(v)
 		if _, isL := isLoad(v); isL {
@@ -176,6 +177,25 @@ func linearAttempt(c *Ctx) {
 					}
 					if okc && dec {
 						continue
+					}
+					// the variable is assigned what a helper computed: every assignment other than the parameter's own
+					// spill is, as seen from the go statement, count - 1
+					if okc && len(gos0) == 1 && len(fn.Params) >= 3 {
+						all, n := true, 0
+						for _, st := range P.CellStores(cell) {
+							if st.Val == ssa.Value(fn.Params[2]) {
+								continue
+							}
+							n++
+							for _, sv2 := range P.SourcesAt(st.Val, gos0[0]) {
+								if valueParent(sv2) != fn || !P.Lin(sv2).Equal(aP(fn.Params[2].Name()).AddC(-1)) {
+									all = false
+								}
+							}
+						}
+						if all && n > 0 {
+							continue
+						}
 					}
 				}
 				return false
